@@ -230,6 +230,59 @@ def dump_graph(wd, name, base, defs, cfg_lines, workers=8, timeout=3600, keep=("
     return res, g
 
 
+# ---------------------------------------------------------------- goal-directed schedules
+_STATE_HDR = re.compile(r"^State (\d+): <", re.M)
+
+
+def find_path(wd, name, base, defs, cfg_lines, goal, keep=("ev",), workers=16, timeout=1800):
+    """Ask TLC for a shortest behaviour reaching a state where `goal` holds: the negated goal is
+    checked as an invariant and the counterexample is the schedule.  Returns a list of events
+    (None if the goal is unreachable within the configuration's bounds)."""
+    gdefs = list(defs) + ["NotGoal == ~(%s)" % goal]
+    tla, cfg = write_mc(wd, name, base, gdefs, list(cfg_lines) + ["INVARIANT NotGoal"])
+    rc, text, wall = run(tla, cfg, wd, workers=workers, timeout=timeout)
+    if "Invariant NotGoal is violated" not in text:
+        if rc == 0:
+            return None
+        raise MachineryError("goal search failed (rc=%s):\n%s" % (rc, text[-2000:]))
+    body = text[text.index("The behavior up to this point is:"):]
+    hdrs = list(_STATE_HDR.finditer(body))
+    evs = []
+    for i, m in enumerate(hdrs):
+        end = hdrs[i + 1].start() if i + 1 < len(hdrs) else len(body)
+        blk = body[body.index("\n", m.start()) + 1:end]
+        # the block ends at the first blank line
+        blk = blk.split("\n\n")[0]
+        st = tlaval.parse_state(blk)
+        if i > 0:
+            evs.append({k: tlaval.to_json(st[k]) for k in keep})
+    return evs
+
+
+def cached_goal_path(cache_file, spec_files, key, compute):
+    """Goal paths are artefacts of the specification alone: keep them under /verif/schedules keyed by the
+    hash of the spec files; recompute (and rewrite the cache) when a spec changed."""
+    import hashlib
+    h = hashlib.sha256()
+    for f in spec_files:
+        with open(os.path.join(SPEC_DIR, f), "rb") as fh:
+            h.update(fh.read())
+    digest = h.hexdigest()
+    path = os.path.join(VERIF, "schedules", cache_file)
+    data = {}
+    if os.path.exists(path):
+        with open(path) as fh:
+            data = json.load(fh)
+    if data.get("spec_sha256") != digest:
+        data = {"spec_sha256": digest, "goals": {}}
+    if key not in data["goals"]:
+        data["goals"][key] = compute()
+        os.makedirs(os.path.dirname(path), exist_ok=True)
+        with open(path, "w") as fh:
+            json.dump(data, fh, indent=1)
+    return data["goals"][key]
+
+
 # ---------------------------------------------------------------- simulation
 
 _SIM_STATE = re.compile(r"^STATE_(\d+) ==\s*$")
@@ -318,9 +371,11 @@ def validate_traces(wd, trace_module, traces, defs, cfg_lines, timeout=3600, chu
             json.dump(part, f, separators=(",", ":"))
         name = "TV_%s" % trace_module
         tla, cfg = write_mc(sub, name, trace_module, defs, cfg_lines)
-        rc, text, wall = run(tla, cfg, sub, workers=workers, env={"TRACE_FILE": tf}, timeout=timeout)
+        rc, text, wall = run(tla, cfg, sub, workers=workers,
+                             env={"TRACE_FILE": tf, "TRACE_DEBUG": os.environ.get("TRACE_DEBUG", "0")}, timeout=timeout)
         if rc != 0:
-            raise MachineryError("trace validation failed to run (rc=%s):\n%s" % (rc, text[-3000:]))
+            k = text.find("Error:")
+            raise MachineryError("trace validation failed to run (rc=%s):\n%s\n...\n%s" % (rc, text[max(0, k):k + 1500], text[-1500:]))
         m = None
         for m in _STATS.finditer(text):
             pass
